@@ -747,8 +747,8 @@ def iterlookupjoin(left, right, lkey, rkey, missing=None, lprefix=None,
     rkind = asindices(rhdr, rkey)
 
     # construct functions to extract key values from both tables
-    lgetk = operator.itemgetter(*lkind)
-    rgetk = operator.itemgetter(*rkind)
+    lgetk = comparable_itemgetter(*lkind)
+    rgetk = comparable_itemgetter(*rkind)
 
     # determine indices of non-key fields in the right table
     # (in the output, we only include key fields from the left table - we
@@ -790,12 +790,15 @@ def iterlookupjoin(left, right, lkey, rkey, missing=None, lprefix=None,
     lrowgrp = []
 
     # loop until *either* of the iterators is exhausted
-    lkval, rkval = None, None  # initialise here to handle empty tables
+    # initialise here to handle empty tables
+    lkval, rkval = Comparable(None), Comparable(None)
+    rstarted = False  # no row group obtained from the right table yet
     try:
 
         # pick off initial row groups
         lkval, lrowgrp = next(lgit)
         rkval, rrowgrp = next(rgit)
+        rstarted = True
 
         while True:
             if lkval < rkval:
@@ -817,7 +820,7 @@ def iterlookupjoin(left, right, lkey, rkey, missing=None, lprefix=None,
         pass
 
     # make sure any left rows remaining are yielded
-    if lkval > rkval:
+    if lkval > rkval or not rstarted:
         # yield anything that got left hanging
         for row in joinrows(lrowgrp, None):
             yield tuple(row)
